@@ -21,7 +21,7 @@ REQUIRED_MONITORS = ["C12.ustar==8pi^3*Eeq/(4gIbeta)", "C12.Eeq==c(analytic tail
 REQUIRED_REACH = ["windestimate.py:friction_velocity", "windestimate.py:estimate_u10_from_spectrum",
                   "windestimate.py:equilibrium_range_values", "roughness.py:charnock_roughness_length"]
 TIMEOUT = {"quick": 600, "thorough": 2400}
-N = {"quick": (8, 40), "thorough": (16, 1200)}
+N = {"quick": (8, 40), "thorough": (16, 500)}
 G = 9.81
 NU_AIR = 1.48e-5
 
